@@ -212,3 +212,77 @@ theorem decodeFuel_encodeStream (lim : Nat) (rs : List Rec) (hw : ∀ r ∈ rs, 
       simp [decodeFuel, readRecord_encode lim r _ (hw r (by simp)), this]
 
 end Frame
+
+namespace Frame
+
+/-- records followed by a tail on which the next `read_record` fails with `e`: the loop returns
+    exactly the records and ends with `e` -/
+theorem decodeFuel_tail (lim : Nat) (rs : List Rec) (hw : ∀ r ∈ rs, WellFormed lim r) (t : Bytes) (e : End)
+    (ht : ∀ f, decodeFuel lim (f + 1) t = ([], e)) :
+    ∀ fuel, (encodeStream rs ++ t).length < fuel → decodeFuel lim fuel (encodeStream rs ++ t) = (rs, e) := by
+  induction rs with
+  | nil =>
+    intro fuel hf
+    cases fuel with
+    | zero => omega
+    | succ f => simpa [encodeStream] using ht f
+  | cons r rs ih =>
+    intro fuel hf
+    cases fuel with
+    | zero => omega
+    | succ f =>
+      have hcons : encodeStream (r :: rs) ++ t = encodeRecord r ++ (encodeStream rs ++ t) := by
+        simp [encodeStream]
+      rw [hcons] at hf ⊢
+      have hpos := encodeRecord_length_pos r
+      have hf' : (encodeStream rs ++ t).length < f := by
+        simp only [List.length_append] at hf ⊢; omega
+      have := ih (fun x hx => hw x (by simp [hx])) f hf'
+      simp [decodeFuel, readRecord_encode lim r _ (hw r (by simp)), this]
+
+/-- a non-empty proper prefix of a written record is never a record: `read_record` reports an
+    incomplete read -/
+theorem readRecord_prefix (lim : Nat) (r : Rec) (hw : WellFormed lim r) (p q : Bytes)
+    (hpq : encodeRecord r = p ++ q) (hp : p ≠ []) (hq : q ≠ []) : readRecord lim p = .incomplete := by
+  obtain ⟨hid, hlen⟩ := hw
+  have hprops := headerLine_props r hid
+  have henc : encodeRecord r = headerLine r ++ NL :: r.payload := by simp [encodeRecord, header_eq]
+  rw [henc] at hpq
+  have hpe : p.isEmpty = false := by
+    cases p with
+    | nil => exact absurd rfl hp
+    | cons _ _ => rfl
+  -- the case where `p` ends inside the header line
+  have inside : ∀ a', headerLine r = p ++ a' → readRecord lim p = .incomplete := by
+    intro a' ha
+    have hnl : ∀ b ∈ p, b ≠ NL := fun b hb => hprops.1 b (by rw [ha]; simp [hb])
+    have hl : p.length ≤ lim := by
+      have := congrArg List.length ha; simp only [List.length_append] at this; omega
+    have : ¬ p.length > lim := by omega
+    simp [readRecord, hpe, scanNl_none p hnl, this]
+  rcases List.append_eq_append_iff.mp hpq with ⟨a', h1, h2⟩ | ⟨a', h1, h2⟩
+  · -- p = headerLine ++ a'
+    cases a' with
+    | nil => exact inside [] (by simpa using h1.symm)
+    | cons b a'' =>
+      simp only [List.cons_append, List.cons.injEq] at h2
+      obtain ⟨hb, hpay⟩ := h2
+      subst hb
+      have hscan : scanNl p = some (headerLine r, a'') := by
+        rw [h1]; exact scanNl_append _ _ hprops.1
+      have hany : (headerLine r).any (fun b => decide (b.toNat ≥ 128)) = false := by
+        rw [List.any_eq_false]
+        intro b hb; have := hprops.2 b hb; simp; omega
+      have hshort : a''.length < r.payload.length := by
+        have := congrArg List.length hpay
+        simp only [List.length_append] at this
+        have : 0 < q.length := List.length_pos_iff.mpr hq
+        omega
+      have h1' : ¬ (headerLine r).length > lim := by omega
+      unfold readRecord
+      simp only [hpe, hscan, hany, splitWs_headerLine r hid, parseDec_toDec]
+      simp [h1', hshort]
+  · -- headerLine = p ++ a'
+    exact inside a' h1
+
+end Frame
